@@ -331,7 +331,9 @@ impl<K: CacheKey + 'static> DiskCache<K> {
             let mut path = self.config.cache_dir.clone();
 
             for level in 0..self.config.subdirectory_levels {
-                let dir_byte = ((hash >> (level * 8)) & 0xFF) as u8;
+                // One byte of the 64-bit hash per level; levels beyond the eighth
+                // start over at the low byte (shifting by 64 or more overflows)
+                let dir_byte = ((hash >> ((level % 8) * 8)) & 0xFF) as u8;
                 path.push(format!("{dir_byte:02x}"));
             }
 
